@@ -325,16 +325,57 @@ static void arena_init()
     if (g_arena == MAP_FAILED || g_poison == MAP_FAILED)
         fatal("arena mmap failed");
 }
+static size_t g_floor = 0; // bytes at the bottom of the arena that hold blocks the code under test keeps across runs
+
+// Start of a run.  Blocks of the repo code that are still live were allocated in an earlier run and kept on
+// purpose (a thread_local vector, a table owned by a function-local static, ...): they must survive, so the part
+// of the arena up to the highest of them becomes the floor below which nothing is recycled.  The unchanged
+// library keeps nothing (floor stays 0 and the layout of every run is identical).
 static void arena_reset()
 {
-    if (g_bump)
+    size_t keep = g_floor;
+    for (auto &kv : g_blocks)
     {
-        madvise(g_arena, (g_bump + 4095) & ~(size_t)4095, MADV_DONTNEED);
-        madvise(g_poison, (g_bump / 8 + 4096) & ~(size_t)4095, MADV_DONTNEED);
+        const Block &b = g_all[kv.second];
+        if (b.kind == AK_HARNESS)
+            continue;
+        size_t padded = (b.size + 15) & ~(size_t)15;
+        size_t end = (size_t)(b.user - (uintptr_t)g_arena) + padded + b.rz;
+        keep = std::max(keep, end);
     }
-    g_bump = 0;
-    g_all.clear();
-    g_blocks.clear();
+    keep = (keep + 4095) & ~(size_t)4095;
+    if (g_bump > keep)
+    {
+        madvise(g_arena + keep, ((g_bump - keep) + 4095) & ~(size_t)4095, MADV_DONTNEED);
+        size_t p0 = (keep / 8 + 4095) & ~(size_t)4095, p1 = (g_bump / 8 + 4096) & ~(size_t)4095;
+        if (p1 > p0)
+            madvise(g_poison + p0, p1 - p0, MADV_DONTNEED);
+        // the partial poison page at the floor: clear by hand
+        if (p0 > keep / 8)
+            memset(g_poison + keep / 8, 0, std::min(p0, g_bump / 8 + 1) - keep / 8);
+    }
+    if (keep == 0)
+    {
+        g_all.clear();
+        g_blocks.clear();
+    }
+    else
+    {
+        // keep the records of everything below the floor (live or freed), drop the rest
+        std::vector<Block> kept;
+        std::map<uintptr_t, size_t> live;
+        for (size_t i = 0; i < g_all.size(); i++)
+            if ((size_t)(g_all[i].user - (uintptr_t)g_arena) < keep)
+            {
+                if (g_blocks.count(g_all[i].user) && g_blocks[g_all[i].user] == i)
+                    live[g_all[i].user] = kept.size();
+                kept.push_back(g_all[i]);
+            }
+        g_all.swap(kept);
+        g_blocks.swap(live);
+    }
+    g_floor = keep;
+    g_bump = keep;
     g_block_serial = 0;
 }
 
@@ -359,7 +400,7 @@ static void *arena_block(size_t size, AllocKind kind, const char *name, bool gar
     size_t padded = (size + 15) & ~(size_t)15;
     size_t total = rz + padded + rz;
     if (g_bump + total > ARENA_BYTES)
-        fatal("simulated heap exhausted");
+        fatal("simulated-heap-exhausted");
     unsigned char *raw = (unsigned char *)g_arena + g_bump;
     g_bump += total;
     unsigned char *user = raw + rz;
